@@ -57,6 +57,12 @@ var c33CorpusProgs = [][2]string{
 	{"none", "function f(v, tail){ let mark = '#'; return `${'}' + tail}|${({a: v}).a + mark}|${(() => { let z = v; return z; })() + mark}`; } console.log(f(1, 'T'));"},
 	{"none", "function f(n, lo, hi){ return `${[1,2,3].filter(function (x) { if (x > lo) { return true; } return x < hi; }).length + n}`; } console.log(f(1, 1, 3));"},
 	{"none", "function f(cells){ let out = ''; for (const cell of cells) { const cls = 'c'; out += `<td class=\"${[cell].map((x) => { return x.kind; })[0] || cls}\">${cell.text}</td>`; } return out; } console.log(f([{text:'a'},{kind:'k',text:'b'}]));"},
+	// locals spelled like contextual keywords, next to the same words in their keyword role
+	{"none", "function pct(part, of){ let t = 0; for (const i of [1, 2]) { t += i; } return t + part * 100 / of; } console.log(pct(1, 4));"},
+	{"none", "function f(table, key){ var get = function (k) { return table[k]; }; let set = 2; const o = { get mA(){ return 1; }, set mA(v){ table.y = v; } }; o.mA = 3; return [get(key), set, o.mA, table.y]; } console.log(JSON.stringify(f({x: 9}, 'x')));"},
+	{"none", "class K { static mS(){ return 1; } static get mG(){ return 2; } } function* gen(n){ yield n; } async function af(p){ return await p; } " +
+		"function f(async, await){ var let = 3; let static = 4, yield = 5; const g = async (q) => { return await q; }; return [async, await, let, static, yield, typeof g(1).then, K.mS(), K.mG, [...gen(6)], typeof af(1).then]; } console.log(JSON.stringify(f(1, 2)));"},
+	{"none", "function T(){ return new.target === undefined; } function f(target, meta){ const {a: from, b: as} = {a: 1, b: 2}; return [target, meta, from, as, T(), {from, as}]; } console.log(JSON.stringify(f(3, 4)));"},
 	{"rename-label-at-block-start", "function f(x){ {lbl: for(;;){break lbl;}} return x;} function g(lbl){return lbl;} console.log(f(1)+g(2));"},
 	{"rename-global-collision", "function f(status){return status;} function g(){return status;} console.log(f(1)+g());"},
 	{"rename-member-name", "function f(name){return {name(){return 1;}}.name()+name;} console.log(f(1));"},
@@ -64,6 +70,12 @@ var c33CorpusProgs = [][2]string{
 	{"rename-destructure-default", "function f(o){const {a = 1, b} = o; return a + b;} console.log(f({a:5,b:2}));"},
 	{"nested-template", "function f(p,q){return `a${ p ? `<b>  ${ q }  </b>` : '' }z`;} console.log(f(1,2));"},
 	{"block-var-at-file-scope", "if (gShared) { var leak = 1; } function f(q){return q+leak;} console.log(f(1));"},
+}
+
+// module-shaped corpus (import/export forms; strict mode): evaluated with vm.SourceTextModule
+var c33CorpusModules = []string{
+	"import dflt, {impA as impB} from './dep.js'; import * as ns from './dep.js'; export {impA as reA} from './dep.js'; " +
+		"function f(from, as){ let of = [from, as]; const r = []; for (const get of of) { r.push(get); } return r; } export const out = JSON.stringify([f(1, 2), dflt, impB, ns.impC, typeof import.meta.url]); export {f as g};",
 }
 
 func c33RawString(r *rand.Rand) string {
@@ -127,7 +139,7 @@ func TestVerifC33(t *testing.T) {
 	progs := []c33Prog{}
 
 	if rp := verifh.ReplayInput(); rp != nil {
-		progs = append(progs, c33Prog{Src: string(rp), Class: c33ClassOfHeader(string(rp))})
+		progs = append(progs, c33Prog{Src: string(rp), Class: c33ClassOfHeader(string(rp)), Module: c33ModuleHeader(string(rp))})
 		o.tie(string(rp), "replay", true)
 	} else {
 		for i, s := range c33Corpus {
@@ -138,6 +150,11 @@ func TestVerifC33(t *testing.T) {
 		for _, cp := range c33CorpusProgs {
 			o.tie(cp[1], "corpus-prog", true)
 			progs = append(progs, c33Prog{Src: "//C33 class=" + cp[0] + " idioms=corpus\n" + cp[1], Class: c33ClassOfHeader("//C33 class=" + cp[0] + " ")})
+		}
+
+		for _, m := range c33CorpusModules {
+			o.tie(m, "corpus-module", true)
+			progs = append(progs, c33Prog{Src: "//C33 class=none module=1 idioms=corpus\n" + m, Module: true})
 		}
 
 		c33ShippedChecks(t, o, dir)
@@ -160,9 +177,29 @@ func TestVerifC33(t *testing.T) {
 				o.tie(p.Src, "prog", true)
 			}
 		}
+
+		// contextual keywords as local names next to their keyword role; every third program is an ES module
+		rc := verifh.Rand(3302)
+
+		for i := 0; i < verifh.N(60, 1800); i++ {
+			p := c33GenCtxProgram(rc, i%3 == 2)
+			progs = append(progs, p)
+			o.st.Inc("ctx_keyword_programs")
+
+			if i%3 == 0 {
+				o.tie(p.Src, "ctxprog", true)
+			}
+		}
 	}
 
 	c33Oracle(t, o, dir, progs)
+}
+
+// c33ModuleHeader: does the first line (the //C33 header) mark the program as an ES module?
+func c33ModuleHeader(src string) bool {
+	line, _, _ := strings.Cut(src, "\n")
+
+	return strings.HasPrefix(line, "//C33 ") && strings.Contains(line, " module=1")
 }
 
 func c33ClassOfHeader(src string) string {
@@ -187,7 +224,7 @@ func c33Oracle(t *testing.T, o *c33Out, dir string, progs []c33Prog) {
 	in := make([]c33NodeIn, 0, len(progs))
 
 	for i, p := range progs {
-		in = append(in, c33NodeIn{ID: i, Orig: p.Src, Min0: string(Minify([]byte(p.Src), false)), Min1: string(Minify([]byte(p.Src), true))})
+		in = append(in, c33NodeIn{ID: i, Orig: p.Src, Min0: string(Minify([]byte(p.Src), false)), Min1: string(Minify([]byte(p.Src), true)), Module: p.Module})
 	}
 
 	res, err := c33RunNode(dir, in)
@@ -207,6 +244,10 @@ func c33Oracle(t *testing.T, o *c33Out, dir string, progs []c33Prog) {
 
 		if strings.Contains(r.Orig, `"err":"SyntaxError"`) {
 			o.st.Inc("programs_invalid_original_skipped")
+
+			if p.Module {
+				o.st.Inc("module_programs_invalid_original_skipped")
+			}
 
 			continue
 		}
